@@ -88,9 +88,11 @@ class GeminiProtocol(BaseGopherProtocol):
         # The meta of an error echoes the (percent-decoded) selector: keep
         # the status line one line.
         meta = str(meta).replace("\r", " ").replace("\n", " ")
-        # <META> is at most 1024 bytes long (Gemini specification).
-        data = meta.encode(errors="backslashreplace")[:1024]
-        data = data.decode(errors="ignore").encode()
+        data = meta.encode(errors="backslashreplace")
+        if code >= 40:
+            # <META> is at most 1024 bytes long (Gemini specification); an
+            # error message may be cut, a redirect or a MIME type may not.
+            data = data[:1024].decode(errors="ignore").encode()
         self.wfile.write(b"%d " % code + data + b"\r\n")
 
     def adjust_mimetype(self, mimetype: typing.Optional[str]) -> str:
